@@ -129,6 +129,7 @@ func init() {
 	}
 	Register("TestC11_Exhaustive", checkC11)
 	Register("TestC11_Random", checkC11)
+	Register("TestC11_Chained", checkC01)
 }
 
 func sliceCase(s, e, t *int, twoPart bool, lo, hi int) *Case {
@@ -172,6 +173,92 @@ func c11Enumeration() []*Case {
 		}
 	}
 	return out
+}
+
+const ruleC11Chain = "two or three chained subscript steps (index / slice / union, small and extreme bounds) on matrices of 0..9 x 0..9 (and 3-level) arrays whose cells hold distinct numbers, so that the index list of an inner subscript differs from the outer one while the outer one is still being consumed; compared with SPEC exactly like C01. Non-trivial as in C01."
+
+func drawC11Chain(rt *rapid.T) *Case {
+	bound := func(label string) *int {
+		switch k := gen.Uniform(rt, label+"kind", 10); {
+		case k < 3:
+			return nil
+		case k < 9:
+			v := rapid.IntRange(-10, 10).Draw(rt, label)
+			return &v
+		}
+		edges := []int{math.MaxInt64, math.MinInt64, 1 << 31, -(1 << 31)}
+		v := edges[gen.Uniform(rt, label+"edge", len(edges))]
+		return &v
+	}
+	mkSub := func() gen.Sub {
+		switch gen.Uniform(rt, "subkind", 6) {
+		case 0:
+			return gen.Sub{Kind: gen.KIndex, N: rapid.IntRange(-9, 9).Draw(rt, "ix")}
+		case 1:
+			return gen.Sub{Kind: gen.KWild}
+		}
+		s := gen.Sub{Kind: gen.KSlice, Start: bound("start"), End: bound("end")}
+		if gen.Uniform(rt, "two", 3) == 0 {
+			s.TwoPart = true
+		} else {
+			s.Step = bound("step")
+		}
+		return s
+	}
+	mkStep := func() gen.Step {
+		n := 1
+		if gen.Uniform(rt, "union", 3) == 0 {
+			n = 2 + gen.Uniform(rt, "nsub", 2)
+		}
+		st := gen.Step{}
+		for i := 0; i < n; i++ {
+			st.Sub = append(st.Sub, mkSub())
+		}
+		onlyWild := true
+		for _, s := range st.Sub {
+			onlyWild = onlyWild && s.Kind == gen.KWild
+		}
+		switch {
+		case onlyWild && n == 1:
+			return gen.Step{Kind: gen.KWild, Not: gen.NSQ}
+		case onlyWild:
+			st.Sub[0] = gen.Sub{Kind: gen.KIndex, N: 0}
+			st.Kind = gen.KUnion
+		case n > 1:
+			st.Kind = gen.KUnion
+		case st.Sub[0].Kind == gen.KIndex:
+			st.Kind = gen.KIndex
+		default:
+			st.Kind = gen.KSlice
+		}
+		return st
+	}
+	depth := 2 + gen.Uniform(rt, "depth3", 4)/3
+	p := &gen.Path{Root: gen.RootDollar}
+	for i := 0; i < depth; i++ {
+		p.Steps = append(p.Steps, mkStep())
+	}
+	dims := make([]int, depth)
+	for i := range dims {
+		dims[i] = gen.Uniform(rt, "dim", 10)
+	}
+	var build func(level, base int) *gen.DNode
+	build = func(level, base int) *gen.DNode {
+		if level == depth {
+			return gen.Num(float64(base))
+		}
+		a := gen.Arr()
+		n := dims[level]
+		if level > 0 && gen.Uniform(rt, "ragged", 4) == 0 {
+			n = gen.Uniform(rt, "raggedlen", 10)
+		}
+		for i := 0; i < n; i++ {
+			a.Kids = append(a.Kids, build(level+1, base*10+i))
+		}
+		return a
+	}
+	r := gen.Render(p, gen.RapidStyle{T: rt})
+	return &Case{Path: r.Text, AST: p, Texts: r.Steps, Doc: build(0, 1), UseNumber: rapid.Bool().Draw(rt, "usenumber")}
 }
 
 func drawC11(rt *rapid.T) *Case {
